@@ -39,7 +39,7 @@ func StartBridge(targetPort int) (*Bridge, error) {
 		}
 		return &Bridge{Front: front, Back: back, FrontAddr: fmt.Sprintf("127.0.0.1:%d", p1), BackAddr: fmt.Sprintf("127.0.0.1:%d", p2)}, nil
 	}
-	return nil, lastErr
+	return nil, fmt.Errorf("bridge did not come up in 5 attempts on different ports: %v", lastErr)
 }
 
 func (b *Bridge) Stop() {
